@@ -214,6 +214,13 @@ func runC19(c *Ctx) error {
 		{"query Q { k_n: n n @skip(if: true) n }", "query Q { k_n: n n }"},
 		{"query Q { k_n: n n n @skip(if: true) }", "query Q { k_n: n n }"},
 		{"query Q { a { z __typename @skip(if: true) } }", "query Q { a { z } }"},
+		// finding C19-4: a repeated directive (not legal GraphQL, but accepted): every occurrence counts
+		{"query Q { k_n: n a @skip(if: false) @skip(if: true) { z } }", "query Q { k_n: n }"},
+		{"query Q { k_n: n a @include(if: true) @include(if: false) { z } }", "query Q { k_n: n }"},
+		{"query Q { k_n: n a @skip(if: false) @include(if: true) @skip(if: true) { z } }", "query Q { k_n: n }"},
+		{"query Q { k_n: n a { z ... on XA @include(if: true) @include(if: false) { xEx } } }", "query Q { k_n: n a { z } }"},
+		{"query Q { k_n: n a { z ...F @skip(if: false) @skip(if: true) } } fragment F on XA { xEx }", "query Q { k_n: n a { z } }"},
+		{"query Q { k_n: n a @skip(if: false) @skip(if: false) @include(if: true) @include(if: true) { z } }", "query Q { k_n: n a { z } }"},
 	} {
 		g := &xGen{r: c.Rng}
 		root := g.node("Q", 3)
